@@ -3,6 +3,8 @@
   simulation relation: A at level `i`, B at level `i+1`.
 -/
 import GM.Proof.QuoteSimOpen
+import GM.Proof.QuoteSimStats
+import GM.Proof.QuoteSimMid
 
 namespace GM.Blocks
 open GM GM.Text GM.Spec GM.Proof.Reader
@@ -71,12 +73,12 @@ theorem closeLoopAll_sim {src al} (ps : PS src al) (fr : Frames al) (l : List Bl
       · rw [if_neg hs, if_neg hs]; exact ih h ha hpk
 
 /-- the relation between the two FINAL node stores, with the unary invariant of A's store -/
-def FRel (src : Bytes) (nA nB : List Node) : Prop := StoreRel src nA nB ∧ UStore nA
+def FRel (src : Bytes) (al : BP → Bool) (nA nB : List Node) : Prop := StoreRel src nA nB ∧ UStoreL nA ∧ NK al nA
 
 /-- closeBlocks(lastIndex, 0) at the end of the source: afterwards nothing is open on either side -/
 theorem closeBlocksAll_sim {src al} (ps : PS src al) (fr : Frames al) {k ls p} {sA sB : St} (h : DR src al k ls p sA sB)
     (L : Int) (hL : L = (sA.pc.opened.length : Int) - 1) :
-    S2 (fun _ _ sA' sB' => FRel src sA'.nodes sB'.nodes) (closeBlocks L 0 sA) (closeBlocks (L + 1) 0 sB) := by
+    S2 (fun _ _ sA' sB' => FRel src al sA'.nodes sB'.nodes) (closeBlocks L 0 sA) (closeBlocks (L + 1) 0 sB) := by
   unfold closeBlocks
   refine S2.bind (getPc_s2 h.s) (fun a b sA1 sB1 hq => ?_)
   obtain ⟨ha, hb, hc, e1, e2⟩ := hq
@@ -105,7 +107,7 @@ theorem closeBlocksAll_sim {src al} (ps : PS src al) (fr : Frames al) {k ls p} {
   have l2 : liftE (.ok [] : Except Panic (List Block)) sB2 = .ok ([], sB2) := rfl
   rw [bind_run l1, bind_run l2]
   unfold modPc
-  exact S2.ok ⟨h2.n, ha2.u⟩
+  exact S2.ok ⟨h2.n, ha2.u, ha2.nk⟩
 
 /-! ### the fall-through of the per-line loop: openBlocks below block `i`, then close what is left over -/
 
@@ -131,15 +133,32 @@ theorem slotAfter_q (old new : List Block) (L : Int) (hL : 0 ≤ L) :
   | none => simp only [Option.map_none]
 
 /-- the result relation of the per-line loop -/
-def LLRel (src : Bytes) (al : BP → Bool) (k ls : Nat) (a b : LineOutcome × List LineStat) (sA sB : St) : Prop :=
+def LLRel (src : Bytes) (al : BP → Bool) (k ls : Nat) (lo : Int) (a b : LineOutcome × List LineStat) (sA sB : St) : Prop :=
   b.1 = a.1 ∧ match a.1 with
-    | .next => ∃ p', DR src al k ls p' sA sB
-    | .eof => FRel src sA.nodes sB.nodes
+    | .next => (∃ p', DR src al k ls p' sA sB) ∧ (FL src → ∃ j, lo ≤ j ∧ CUR (k : Int) j a.2 b.2)
+    | .eof => FRel src al sA.nodes sB.nodes
+
+theorem LLRel.mono {src al k ls} {lo lo' : Int} (hle : lo ≤ lo') {a b sA sB} (h : LLRel src al k ls lo' a b sA sB) :
+    LLRel src al k ls lo a b sA sB := by
+  obtain ⟨h1, h2⟩ := h
+  refine ⟨h1, ?_⟩
+  cases ha : a.1 with
+  | eof => rw [ha] at h2; exact h2
+  | next =>
+    rw [ha] at h2
+    exact ⟨h2.1, fun hfl => by obtain ⟨j, hj, hc⟩ := h2.2 hfl; exact ⟨j, by omega, hc⟩⟩
+
+/-- the least level the statistics have reached when the per-line loop ends: one more than the start when there is a block to visit -/
+def loOf (i : Int) : List Block → Int
+  | [] => i
+  | _ :: _ => i + 1
+
+theorem loOf_ge (i : Int) (l : List Block) : i ≤ loOf i l := by cases l <;> simp only [loOf] <;> omega
 
 theorem llOpen_sim {src al} (ps : PS src al) (fr : Frames al) (ot : OT src) (ns : NS src) (tr : TrigOK src al)
     (ob : List Block) (L i : Int) (bA bB : Bool) (stA stB : List LineStat) (t : Nat) {k ls p} {sA sB : St}
-    (h : DRL src al k ls p sA sB) :
-    S2 (LLRel src al k ls) (llOpen ob L i bA stA t sA)
+    (h : DRL src al k ls p sA sB) (hb : FL src → bB = bA) (lo : Int) (hst : FL src → ∃ j, lo ≤ j ∧ CUR (k : Int) j stA stB) :
+    S2 (LLRel src al k ls lo) (llOpen ob L i bA stA t sA)
       (llOpen (bqBlock :: ob.map shB) (L + 1) (i + 1) bB stB (t + 1) sB) := by
   unfold llOpen
   refine S2.bind (P := fun a b sA' sB' => b = shB a ∧ 0 ≤ L ∧ sA' = sA ∧ sB' = sB) (S2.liftE (fun a ha => ?_))
@@ -149,7 +168,7 @@ theorem llOpen_sim {src al} (ps : PS src al) (fr : Frames al) (ot : OT src) (ns 
   obtain ⟨hb, hL, e1, e2⟩ := hq
   subst hb
   rw [e1, e2]
-  refine S2.bind (openBlocks_sim ps fr ot ns tr bA bB t h) (fun ra rb sA2 sB2 hq => ?_)
+  refine S2.bind (openBlocks_sim ps fr ot ns tr bA bB hb t h) (fun ra rb sA2 sB2 hq => ?_)
   obtain ⟨hr, ⟨p', h2⟩, _⟩ := hq
   rw [hr]
   by_cases hc : (ra != OpenResult.paragraphContinuation) = true
@@ -171,9 +190,9 @@ theorem llOpen_sim {src al} (ps : PS src al) (fr : Frames al) (ot : OT src) (ns 
       split <;> omega
     rw [hidx]
     refine S2.bind (closeBlocks_sim ps fr h2 _ i) (fun _ _ sA4 sB4 h4 => ?_)
-    exact S2.pure ⟨rfl, p', h4.1⟩
+    exact S2.pure ⟨rfl, ⟨p', h4.1⟩, hst⟩
   · rw [if_neg hc, if_neg hc]
-    exact S2.pure ⟨rfl, p', h2⟩
+    exact S2.pure ⟨rfl, ⟨p', h2⟩, hst⟩
 
 def llFall (q : Nat) (ob : List Block) (L i : Int) (blank : Bool) (blankLines : List LineStat) :
     M (LineOutcome × List LineStat) :=
@@ -187,8 +206,8 @@ def llFall (q : Nat) (ob : List Block) (L i : Int) (blank : Bool) (blankLines : 
 
 theorem llFall_sim {src al} (ps : PS src al) (fr : Frames al) (ot : OT src) (ns : NS src) (tr : TrigOK src al)
     (ob : List Block) (L i : Int) (hi : 0 ≤ i) (bA bB : Bool) (stA stB : List LineStat) {k ls p} {sA sB : St}
-    (h : DRL src al k ls p sA sB) :
-    S2 (LLRel src al k ls) (llFall 0 ob L i bA stA sA)
+    (h : DRL src al k ls p sA sB) (hb : FL src → bB = bA) (lo : Int) (hst : FL src → ∃ j, lo ≤ j ∧ CUR (k : Int) j stA stB) :
+    S2 (LLRel src al k ls lo) (llFall 0 ob L i bA stA sA)
       (llFall 0 (bqBlock :: ob.map shB) (L + 1) (i + 1) bB stB sB) := by
   unfold llFall
   have hB : (i + 1 != 0) = true := by
@@ -206,7 +225,7 @@ theorem llFall_sim {src al} (ps : PS src al) (fr : Frames al) (ot : OT src) (ns 
     subst hb
     rw [e1, e2]
     simp only [pure_bind, shB]
-    exact llOpen_sim ps fr ot ns tr ob L i bA bB stA stB a.node h
+    exact llOpen_sim ps fr ot ns tr ob L i bA bB stA stB a.node h hb lo hst
   · rw [if_neg hA]
     have hi0 : i = 0 := by
       simp only [bne_iff_ne, ne_eq, Decidable.not_not] at hA; exact hA
@@ -214,12 +233,12 @@ theorem llFall_sim {src al} (ps : PS src al) (fr : Frames al) (ot : OT src) (ns 
     have e : liftE (blockAt (bqBlock :: ob.map shB) ((0 : Int) + 1 - 1)) sB = .ok (bqBlock, sB) := rfl
     rw [bind_run e]
     simp only [pure_bind, bqBlock]
-    exact llOpen_sim ps fr ot ns tr ob L 0 bA bB stA stB 0 h
+    exact llOpen_sim ps fr ot ns tr ob L 0 bA bB stA stB 0 h hb lo hst
 
 /-! ### the loop over the opened blocks of A (levels `i`, `i+1`, …) against B's levels `i+1`, … -/
 
-theorem advanceLine_nodes (sA sB : St) {src : Bytes} (h : FRel src sA.nodes sB.nodes) :
-    S2 (fun _ _ sA' sB' => FRel src sA'.nodes sB'.nodes) (advanceLine sA) (advanceLine sB) :=
+theorem advanceLine_nodes (sA sB : St) {src : Bytes} {al : BP → Bool} (h : FRel src al sA.nodes sB.nodes) :
+    S2 (fun _ _ sA' sB' => FRel src al sA'.nodes sB'.nodes) (advanceLine sA) (advanceLine sB) :=
   S2.ok h
 
 theorem viewA_some_lt {src : Bytes} {ls p : Nat} {line : Bytes} (h : viewA src ls p = some line) : p < lineEnd src ls := by
@@ -232,17 +251,18 @@ theorem lineLoop_sim {src al} (ps : PS src al) (fr : Frames al) (ot : OT src) (n
     (ob : List Block) (L : Int) :
     ∀ (rest : List Block), (∀ b ∈ rest, b ∈ ob) → ∀ (i : Int), 0 ≤ i → ∀ (stA stB : List LineStat) {k ls p : Nat}
       {sA sB : St}, DR src al k ls p sA sB → sA.pc.opened = ob → L = (ob.length : Int) - 1 →
-      S2 (LLRel src al k ls) (lineLoop 0 ob L rest i stA sA)
+      (FL src → CUR (k : Int) i stA stB) → (i = 0 → p = ls) → ∀ (pre : List Block), Sh.MidA src ob pre rest i sA →
+      S2 (LLRel src al k ls (loOf i rest)) (lineLoop 0 ob L rest i stA sA)
         (lineLoop 0 (bqBlock :: ob.map shB) (L + 1) (rest.map shB) (i + 1) stB sB) := by
   intro rest
   induction rest with
   | nil =>
-    intro _ i _ stA stB k ls p sA sB h _ _
+    intro _ i _ stA stB k ls p sA sB h _ _ hcur _ _ _
     simp only [List.map_nil]
     unfold lineLoop
-    exact S2.pure ⟨rfl, p, h⟩
+    exact S2.pure ⟨rfl, ⟨p, h⟩, fun hfl => ⟨i, Int.le_refl _, hcur hfl⟩⟩
   | cons be rest ih =>
-    intro hsub i hi stA stB k ls p sA sB h hop hL
+    intro hsub i hi stA stB k ls p sA sB h hop hL hcur hi0 pre hm
     have hbe : be ∈ ob := hsub be (by simp)
     have ih' := ih (fun b hb => hsub b (by simp [hb])) (i + 1) (by omega)
     obtain ⟨hal, hn0⟩ : al be.bp = true ∧ be.node ≠ 0 := by
@@ -259,6 +279,10 @@ theorem lineLoop_sim {src al} (ps : PS src al) (fr : Frames al) (ot : OT src) (n
     subst ea eb
     simp only
     have hd1 : DR src al k ls p sA1 sB1 := ⟨h1, by rw [hpc1, hnd1]; exact h.a⟩
+    have hm1 : Sh.MidA src ob pre (be :: rest) i sA1 := by
+      have e : sA1 = { sA with r := sA1.r } := by
+        cases sA1; cases sA; simp only at hpc1 hnd1; subst hpc1 hnd1; rfl
+      rw [e]; exact hm.congr_r h.s.r.a h1.r.a
     have hop1 : sA1.pc.opened = ob := by rw [hpc1]; exact hop
     cases hv : viewA src ls p with
     | none =>
@@ -285,18 +309,35 @@ theorem lineLoop_sim {src al} (ps : PS src al) (fr : Frames al) (ot : OT src) (n
       simp only [shB]
       rw [hk]
       have hd2 : DR src al k ls p sA2 sB2 := ⟨h2, hd1.a⟩
+      have hbl : FL src → i = 0 → isBlank line = false := by
+        intro hfl h0
+        have hpl := hi0 h0
+        have := hfl k ls h.s.r.inl.line
+        rw [hpl] at hv
+        unfold viewA at hv
+        split at hv
+        · cases hv; exact this
+        · cases hv
+      have hqq := fun hfl => cur_query hi (hcur hfl) (isBlank line) (hbl hfl)
       have fall : ∀ {p'} {sA' sB' : St} (stA' stB' : List LineStat), DR src al k ls p' sA' sB' →
-          S2 (LLRel src al k ls) (llFall 0 ob L i (isBlankLine ((k : Int) - 1) i stA') stA' sA')
+          (FL src → isBlankLine ((k : Int) - 1) (i + 1) stB' = isBlankLine ((k : Int) - 1) i stA') →
+          (FL src → ∃ j, i + 1 ≤ j ∧ CUR (k : Int) j stA' stB') →
+          S2 (LLRel src al k ls (i + 1)) (llFall 0 ob L i (isBlankLine ((k : Int) - 1) i stA') stA' sA')
             (llFall 0 (bqBlock :: ob.map shB) (L + 1) (i + 1) (isBlankLine ((k : Int) - 1) (i + 1) stB') stB' sB') :=
-        fun stA' stB' hd => llFall_sim ps fr ot ns tr ob L i hi _ _ stA' stB' hd.loose
+        fun stA' stB' hd hb hst => llFall_sim ps fr ot ns tr ob L i hi _ _ stA' stB' hd.loose hb (i + 1) hst
       by_cases hkp : (na.kind != Kind.paragraph) = true
       · rw [if_pos hkp, if_pos hkp]
         have hp : p < src.length := h.s.r.inl.lt_iff.mpr hplt
         have hnsp := ns k ls p h.s.r.inl hp
-        refine S2.bind (S2.andL (ps.cont be.bp hal k ls p be.node sA2 sB2 h2 hn0 hd2.a hp hnsp)
-          (F := fun _ sA' => AInv al sA'.pc sA'.nodes ∧ sA'.pc.opened = sA2.pc.opened)
-          (fun _ sA' e => ⟨fr.cont _ _ _ _ _ e hal hn0 hd2.a, fr.contOpened _ _ _ _ _ e⟩)) (fun sa sb sA4 sB4 hq => ?_)
-        obtain ⟨⟨hs, p', h4⟩, ha4, hop4⟩ := hq
+        refine S2.bind (S2.andL (ps.cont be.bp hal k ls p be.node sA2 sB2 h2 hn0 hd2.a hp hnsp
+            (fun hbi hnb => listItemContPre_of_mid_sr h2 hm1 hbi hp hnb))
+          (F := fun st' sA' => AInv al sA'.pc sA'.nodes ∧ sA'.pc.opened = sA2.pc.opened ∧
+            (st'.cont = true → st'.hasChildren = true → Sh.MidA src ob (pre ++ [be]) rest (i + 1) sA') ∧
+            (st'.cont = true → st'.hasChildren = false → rest = []))
+          (fun _ sA' e => ⟨fr.cont _ _ _ _ _ e hal hn0 hd2.a, fr.contOpened _ _ _ _ _ e,
+            (fun hc hch => mid_step hm1 h2.r.a hp e hc hch), (fun hc hch => mid_leaf_last hm1 e hc hch)⟩))
+          (fun sa sb sA4 sB4 hq => ?_)
+        obtain ⟨⟨hs, p', h4⟩, ha4, hop4, hmid4, hleaf4⟩ := hq
         rw [hs]
         have hd4 : DR src al k ls p' sA4 sB4 := ⟨h4, ha4⟩
         by_cases hcont : sa.cont = true
@@ -306,17 +347,27 @@ theorem lineLoop_sim {src al} (ps : PS src al) (fr : Frames al) (ot : OT src) (n
           rw [hcond]
           by_cases hch : (sa.hasChildren && i == L) = true
           · rw [if_pos hch, if_pos hch]
-            refine S2.bind (openBlocks_sim ps fr ot ns tr _ _ be.node hd4.loose) (fun ra rb sA5 sB5 hq => ?_)
+            refine S2.bind (openBlocks_sim ps fr ot ns tr _ _ (fun hfl => (hqq hfl).1) be.node hd4.loose)
+              (fun ra rb sA5 sB5 hq => ?_)
             obtain ⟨_, ⟨p'', h5⟩, _⟩ := hq
-            exact S2.pure ⟨rfl, p'', h5⟩
+            exact S2.pure ⟨rfl, ⟨p'', h5⟩, fun hfl => ⟨i + 1, Int.le_refl _, (hqq hfl).2⟩⟩
           · rw [if_neg hch, if_neg hch]
             simp only [Bool.not_false, if_true]
-            exact ih' _ _ hd4 (by rw [hop4, hop1]) hL
+            cases hhc : sa.hasChildren with
+            | true =>
+              exact S2.mono (ih' _ _ hd4 (by rw [hop4, hop1]) hL (fun hfl => (hqq hfl).2) (fun h0 => by omega) _
+                (hmid4 hcont hhc)) (fun _ _ _ _ hh => LLRel.mono (loOf_ge _ _) hh)
+            | false =>
+              have hnil := hleaf4 hcont hhc
+              subst hnil
+              simp only [List.map_nil]
+              unfold lineLoop
+              exact S2.pure ⟨rfl, ⟨p', hd4⟩, fun hfl => ⟨i + 1, Int.le_refl _, (hqq hfl).2⟩⟩
         · rw [if_neg hcont, if_neg hcont]
           simp only [Bool.not_true, Bool.false_eq_true, if_false]
-          exact fall _ _ hd4
+          exact fall _ _ hd4 (fun hfl => (hqq hfl).1) (fun hfl => ⟨i + 1, Int.le_refl _, (hqq hfl).2⟩)
       · rw [if_neg hkp, if_neg hkp]
         simp only [Bool.not_true, Bool.false_eq_true, if_false]
-        exact fall _ _ hd2
+        exact fall _ _ hd2 (fun hfl => (hqq hfl).1) (fun hfl => ⟨i + 1, Int.le_refl _, (hqq hfl).2⟩)
 
 end GM.Blocks
